@@ -175,6 +175,34 @@ CHECKS = {
             "kind) is compared literally with both models on generated DFAs x keys x starts x windows x directions.",
             "Symbols are numbered by rank under the user's key (injective keys only). Open known findings: start string with a symbol "
             "outside the alphabet (KeyError), empty alphabet (IndexError).", "7/C14"),
+    "C16": ("Coq theorems about a mirror model of NFA.edit_distance's (position, errors) grid against an inductive edit-derivation "
+            "relation + differential correspondence (verified subset-construction comparator, DP oracle) against /repo",
+            "Proved for every alphabet, reference word over it, bound k >= 0 and non-empty set of kinds (unbounded): the construction "
+            "succeeds, the NFA is valid, and its textbook language (all words over all symbols) is exactly the set of words derivable "
+            "from the reference by at most k enabled edits (match / insertion / deletion / substitution steps; a substitution by the same "
+            "symbol costs 1, as in the code); ValueError exactly for k < 0 or no enabled kind. The edit relation itself is tied to the "
+            "classical recursive Levenshtein distance (all three kinds: accepted words over the alphabet = words at distance <= k; any "
+            "subset of kinds: cost >= distance) and checked by three sanity theorems (cost 0 = the reference itself, length difference "
+            "<= cost, Hamming case keeps the length). Model tied "
+            "to the code by language equality + validity of implementation NFA vs model NFA and by verdicts of implementation, model and "
+            "an independent DP oracle on all words up to length 6, exhaustively for all references of length <= 4 over 1 and 2 symbols, "
+            "k <= 3, all 7 kind subsets (thorough: length <= 6 over 2 symbols with k <= 4, length <= 5 over 3 symbols).",
+            "The comparator is run with an explicit exploration budget (Model/D16.v nfa_diff_budget) because the built-in 2^|A|*2^|B| "
+            "budget of Model/Decide.v is a unary number in the extracted code.", "7/C16"),
+    "C18": ("Coq theorems about a mirror model of freeze_value / Automaton.__init__ / copy / pickle / attribute blocking over a rose "
+            "tree of Python values + differential correspondence and an operand-mutation monitor against /repo",
+            "PARTIAL. Proved (unbounded, for every Python value whose set members and dict keys are hashable): the frozen value contains "
+            "no mutable container at any depth, has the same content (freeze = conversion of every container to its immutable kind), "
+            "freezing is idempotent; the constructor stores deeply immutable values with the given content; copy() and a pickle round "
+            "trip give the same class and an identical definition (same option setting; same content across settings); every attribute "
+            "write/delete raises and no history of them changes the object. A proved Example shows the pre-repair freeze_value (tuples "
+            "not entered) violates deep immutability on ('q1', ['Z']). NOT proved, monitored on every run: aliasing between Python "
+            "objects, i.e. that no operation writes into a table it shares with an operand - the harness deep-snapshots every automaton "
+            "alive in a session of public calls (all DFA/NFA/GNFA operations, queries and conversions; PDA/TM reads) before and after "
+            "every call, under both settings of allow_mutable_automata, mutates the original constructor arguments after construction, "
+            "and walks the stored definition of all 8 classes for mutable values.",
+            "Model of frozendict follows the installed pure-Python build (a dict subclass, so an already frozen dict is rebuilt by "
+            "freeze_value); identity/aliasing and the process-wide option flags are outside the model.", "7/C18"),
 }
 
 PENDING = {}
